@@ -100,6 +100,8 @@ def run(ck):
         d = schednorm.compare(t, schednorm.dualize(gold), '', name, 'golden')
         ck.record('C01.R3', f'{name}~golden', d is None, 'equals the golden PLONK schedule', f'{name} schedule deviates from the golden schedule: {d}')
     r4_query_indexing(ck, w)
+    r5_owned_commitments(ck, w)
+    r6_full_table(ck, w)
     ck.notes.append('normalised verifier schedule:\n' + '\n'.join(sched.show(trees['verifier'], with_loc=False)))
 
 
@@ -150,3 +152,70 @@ def r4_query_indexing(ck, w):
                           'evaluation of a different query', hirq.fn_loc(f, x))
     ck.floor('C01.R4', 'indexed evaluation/commitment sites in per-query closures', n_sites, 6)
     ck.floor('C01.R4', 'query families covered', len(fams), 3)
+
+
+def r5_owned_commitments(ck, w, rule='C01.R5'):
+    """opening queries identify a commitment by its address"""
+    from ..core import walk, callee, peel
+    from ..engines import hirq, valflow
+    ck.rule(rule, 'CommitmentReference::eq compares ADDRESSES (std::ptr::eq) and construct_intermediate_sets refuses two queries of one commitment at one point. '
+                  'The opening queries that verify_algebraic_constraints builds for the committed instances must therefore point into storage owned by the '
+                  'function, one allocation per proof — never into the caller\'s slices, which two proofs may share: an honest multi-proof whose proofs share a slice '
+                  'of committed instances would be refused as a duplicated query.  Checked: the value indexed by `committed_instances[column.index()]` inside the '
+                  'query construction is a local of the function (or of its closures), not the parameter.')
+    f = w.fn('midnight_proofs::plonk::verifier::verify_algebraic_constraints', required=False)
+    if f is None:
+        ck.bad(rule, 'verify_algebraic_constraints:anchor', 'verify_algebraic_constraints not found (anchor)')
+        return
+    feat = any(p_.get('n') == 'committed_instances' for p_ in f.get('params', []))
+    if not feat:
+        ck.ok(rule, 'verify_algebraic_constraints:owned-committed-instances', 'built without committed instances: the function allocates the (empty) per-proof vectors itself')
+        return
+    pid = next(p_['i'] for p_ in f['params'] if p_.get('n') == 'committed_instances')
+    # every `VerifierQuery::new*` / `CommitmentReference::OnePiece` reached by the parameter itself (not through an owned copy)
+    owned = [x for x in walk(f['body'], into_closures=False) if x.get('k') == 'let' and x.get('pat', {}).get('n') == 'committed_instances']
+    ok = False
+    why = 'the parameter is never re-bound to an owned copy'
+    if owned:
+        init = owned[0].get('init', {})
+        calls = [callee(c) or '' for c in hirq.calls(init)]
+        copies = any(c.endswith(('::to_vec', '::to_owned', 'Clone::clone', '::cloned', '::collect')) for c in calls)
+        uses_param = any(y.get('k') == 'local' and y.get('i') == pid for y in walk(init))
+        # after the re-binding no use of the parameter remains
+        later = False
+        seen = False
+        for x in walk(f['body']):
+            if x is owned[0]:
+                seen = True
+                continue
+            if seen and x.get('k') == 'local' and x.get('i') == pid and not any(x is y for y in walk(init)):
+                later = True
+        ok = copies and uses_param and not later
+        why = f'copy: {copies}, from the parameter: {uses_param}, parameter used afterwards: {later}'
+    ck.record(rule, 'verify_algebraic_constraints:owned-committed-instances', ok, 'queries point into a per-proof copy of the committed instances',
+              f'verify_algebraic_constraints builds its opening queries from references into the caller\'s `committed_instances` ({why}): two proofs that share one slice '
+              f'produce queries with equal addresses, which are refused as duplicated — an honest multi-proof does not verify', hirq.fn_loc(f))
+
+
+def r6_full_table(ck, w, rule='C01.R6'):
+    """a column that is full already needs no filling"""
+    from ..core import walk, callee, peel
+    from ..engines import hirq
+    ck.rule(rule, 'assign_table calls fill_from_row with from_row = number of rows written; a table that fills the usable rows exactly gives from_row == '
+                  'usable_rows.end, where nothing is left to fill.  The guard of fill_from_row in keygen::Assembly and in MockProver therefore does not test '
+                  '`usable_rows.contains(&from_row)` (which refuses the end of the range): circuits whose lookup table has exactly 2^k - (blinding + 1) rows — the '
+                  'size k_from_circuit computes — could not be keyed.')
+    A = 'midnight_proofs::plonk::circuit::Assignment>::fill_from_row'
+    for name, nid in (('keygen', '<midnight_proofs::plonk::keygen::Assembly as ' + A), ('mock', '<midnight_proofs::dev::MockProver as ' + A)):
+        f = w.fn(nid, required=False)
+        if f is None:
+            ck.bad(rule, f'{name}:fill_from_row:anchor', f'{nid} not found (anchor)')
+            continue
+        fr = next((p_['i'] for p_ in f.get('params', []) if p_.get('n') == 'from_row'), None)
+        if fr is None:
+            fr = f['params'][2]['i'] if len(f.get('params', [])) > 2 and f['params'][2].get('k') == 'bind' else None
+        bad = [c for c in hirq.calls(f['body']) if c.get('m') == 'contains' and any(x.get('k') == 'field' and x['n'] == 'usable_rows' for x in walk(c['recv']))
+               and any(y.get('k') == 'local' and y.get('i') == fr for a in c.get('args', []) for y in walk(a))]
+        ck.record(rule, f'{name}:fill_from_row:admits-full-column', not bad, 'from_row == usable_rows.end is accepted',
+                  f'{nid} tests usable_rows.contains(&from_row): a table that fills the usable rows exactly (from_row == usable_rows.end) is refused although it fits',
+                  hirq.fn_loc(f))
